@@ -59,8 +59,6 @@ static void check_pair(const rtosc_arg_val_t *l, const rtosc_arg_val_t *r, int l
     V_ASSERT(e2 == (s2 == 0), "C16 eq_single(r,l) == (spec_sign(r,l) == 0)");
     V_ASSERT((c == 0) == (e != 0), "C16 cmp_single returns 0 exactly when eq_single reports equal");
     V_ASSERT(spec_law_antisym(c, c2), "C16 cmp_single is antisymmetric");
-    V_ASSERT(rtosc_arg_vals_cmp_single(l, l, NULL) == 0 && rtosc_arg_vals_eq_single(l, l, NULL) == 1,
-             "C16 cmp_single / eq_single are reflexive");
     /* a list that holds just this array (the iterator must step over the array's elements) */
     int lc = rtosc_arg_vals_cmp(l, r, 1 + (size_t)ln, 1 + (size_t)rn, NULL);
     int le = rtosc_arg_vals_eq(l, r, 1 + (size_t)ln, 1 + (size_t)rn, NULL);
